@@ -343,7 +343,15 @@ func coldPhase(rep *report, seed uint64, models, nops int) {
 				}
 			case 11:
 				first = roOp{free: 5, recv: 7, method: 0, desc: "SaveNetwork(net,enc=7,all writers fail)", class: "SaveNetworkFailingWriters"}
-			case 1, 7:
+			case 7:
+				// a SECOND concurrent DBC export of the bus of the deep message (two exports of one bus
+				// before any export of it has completed)
+				if w.deepBus >= 0 {
+					first = roOp{free: 1, recv: w.deepBus, desc: fmt.Sprintf("ExportBus(bus#%d)", w.deepBus), class: "ExportBus"}
+					break
+				}
+				first = stringOf(netIdx)
+			case 1:
 				if len(ovfMsgs) > 0 {
 					if op, ok := methodOf(ovfMsgs[gr.intn(len(ovfMsgs))], "GetCANID"); ok {
 						first = op
@@ -367,6 +375,9 @@ func coldPhase(rep *report, seed uint64, models, nops int) {
 				b := gr.intn(len(w.buses))
 				if len(w.ovfBuses) > 0 {
 					b = w.ovfBuses[gr.intn(len(w.ovfBuses))]
+				}
+				if w.deepBus >= 0 {
+					b = w.deepBus
 				}
 				first = roOp{free: 1, recv: b, desc: fmt.Sprintf("ExportBus(bus#%d)", b), class: "ExportBus"}
 			default:
@@ -401,6 +412,9 @@ func coldPhase(rep *report, seed uint64, models, nops int) {
 		rep.counters["race_ops"] += T * nops
 		if w.deep {
 			rep.counters["cold_rounds_with_deep_nesting"]++
+		}
+		if w.multiGroup {
+			rep.counters["cold_rounds_with_multi_group_signal"]++
 		}
 		if h1 != h0 {
 			rep.fail("cold-snapshot-changed", fmt.Sprintf("cold model=%d: shared state (model or package-level variables) differs after the first, concurrent, read-only use", idx))
